@@ -57,7 +57,7 @@ var recECO = vstats.New("TestC17ExistenceCacheOverlapping")
 // drive (e.g. one that reads the clock while holding its lock, so that a
 // parked caller blocks everybody else): such a case is abandoned as
 // inconclusive, never reported as a violation.
-const ecoWatchdog = 20 * time.Second
+const ecoWatchdog = 15 * time.Second
 
 // ecoNoPark[add]: calls of that kind must not be parked inside Now() (the
 // implementation holds its lock there, or a watchdog fired).
@@ -72,6 +72,9 @@ func ecoProbe() {
 	d := hx.Sha("probe", []byte("existence cache probe")).ToSingletonSet()
 	for _, parkedIsAdd := range []bool{true, false} {
 		for _, otherIsAdd := range []bool{true, false} {
+			if ecoNoPark[parkedIsAdd] {
+				continue
+			}
 			clk := &parkClock{VClock: hx.NewVClock(), events: make(chan ecoEvent, 8)}
 			cache := digest.NewExistenceCache(clk, digest.KeyWithInstance, 8, time.Hour, eviction.NewMetricsSet(backends.NewEvictionSet("lru"), "ExistenceCachingBlobAccess"))
 			do := func(add bool) {
